@@ -75,7 +75,9 @@ pub fn par_map<T: Sync, R: Send>(items: &[T], f: impl Fn(usize, &T) -> R + Sync)
     let chunks: Vec<Vec<(usize, R)>> = std::thread::scope(|s| {
         let mut hs = vec![];
         for _ in 0..n {
-            hs.push(s.spawn(|| {
+            // generous stacks: some of the code under test keeps 64 KiB datagram buffers inside
+            // its futures, which are moved around on the stack while they are constructed
+            hs.push(std::thread::Builder::new().stack_size(256 << 20).spawn_scoped(s, || {
                 let mut local = vec![];
                 loop {
                     let i = next.fetch_add(1, Ordering::Relaxed);
@@ -85,7 +87,7 @@ pub fn par_map<T: Sync, R: Send>(items: &[T], f: impl Fn(usize, &T) -> R + Sync)
                     local.push((i, f(i, &items[i])));
                 }
                 local
-            }));
+            }).expect("spawn worker"));
         }
         hs.into_iter()
             .map(|h| match h.join() {
